@@ -64,6 +64,18 @@ MUTANTS = [
         os.makedirs(build_dir, exist_ok=True)
         try:
             output = joinpath(build_dir, os.path.basename(dll))''')]),
+    # a per-process memo of the build directory keyed by pid: private to every
+    # real process, forked or not.  Must stay silent (the simulator keeps
+    # kerneldll's module data private per simulated process).
+    ("c18_benign_build_dir_memo_per_pid", "C18", 0, [
+        (K, "def dll_name(model_file, dtype):", "_BUILD_DIRS = {}\n\ndef dll_name(model_file, dtype):"),
+        (K, BUILD_OPEN, '''        _key = (os.getpid(), os.path.dirname(dll))
+        if _key not in _BUILD_DIRS or not os.path.isdir(_BUILD_DIRS[_key]):
+            _BUILD_DIRS[_key] = tempfile.mkdtemp(prefix="build_", dir=os.path.dirname(dll))
+        build_dir = _BUILD_DIRS[_key]
+        try:
+            output = joinpath(build_dir, os.path.basename(dll))'''),
+        (K, "            shutil.rmtree(build_dir, ignore_errors=True)\n        # Comment", "            pass\n        # Comment")]),
     ("c18_benign_rename", "C18", 0, [(K, "                os.replace(output, dll)", "                os.rename(output, dll)")]),
     ("c17_name_without_bits", "C17", 1, [(K, 'basename = "sas%d_%s"%(bits, model_file)', 'basename = "sas_%s"%(model_file,)')]),
     ("c17_tag_from_model_id", "C17", 1, [(K, 'model_file = model_info.id + "_" + generate.tag_source(source)',
